@@ -163,7 +163,7 @@ func runPause(c *drv.Ctx) error {
 }
 
 func runRPause(c *drv.Ctx) error {
-	w := cw.New(c.Out, pauseHeader, "rpcase", []cw.Check{{Name: "MISMATCH", Fn: "rpcase_ok"}, {Name: "MON06R", Fn: "rpcase_mon"}})
+	w := cw.New(c.Out, pauseHeader, "rpcase", []cw.Check{{Name: "MISMATCH", Fn: "rpcase_ok"}, {Name: "MON06R", Fn: "rpcase_mon"}, {Name: "MON06RM", Fn: "rpcase_model_ok"}})
 	w.ShardSize = 120
 	w.Stats.Rule = "a real GraphSync responder (root present, random part of the DAG) answering a request sent by a raw network endpoint that records every message; the responder pauses the response from its outgoing-block hook at the k-th transmitted block (k in 1..blocks, 1/8 no pause) and is unpaused as soon as the endpoint saw the RequestPaused status; " +
 		"monitor: metadata and blocks over all messages equal the honest responder stream of the plan (= the unpaused output), no message between the paused status and the Unpause call carries a block, final status full/partial as expected. non-trivial = the paused status was seen; distinct = distinct terms"
